@@ -273,6 +273,14 @@ func (fg *FG) instr(st *State, in ssa.Instruction) {
 		fg.convert(st, x)
 	case *ssa.ChangeType:
 		a := fg.val(x.X)
+		if a.Ty != nil && fg.sorts.sortOf(a.Ty) != fg.sorts.sortOf(x.Type()) {
+			// a conversion between two named types that the encoding gives different sorts (structs
+			// with identical fields): the result is an unconstrained value of the target sort (a sound
+			// over-approximation; field-wise equality is not needed by any contract so far)
+			v := fg.bindFresh(x)
+			fg.assumeTyped(v, st)
+			break
+		}
 		a.Ty = x.Type()
 		fg.vals[x] = a
 	case *ssa.ChangeInterface:
